@@ -53,6 +53,13 @@ def gen_C01(tier, rng):
             o = rng.randrange(1, mx + 1)
             k = rng.choice([0, 0, rng.randrange(1, mx + 1), mx])
             yield (f"hash.{alg} {o} {hx(rng.rbytes(k))} {hx(rng.rbytes(n))}", f"{alg}.random")
+        # long messages (> 4B+1) for the fixed-size one-shot functions `hashing::blake2x_nnn` and their contexts, up to the
+        # 64 KiB the property names; one 64 KiB message through the parameterised entry point, keyed and unkeyed
+        for o in p["std"]:
+            for n in (4 * B + 2, 5 * B - 1, 5 * B, 5 * B + 1, 16 * B, rng.randrange(4 * B + 2, 8193), 65536):
+                yield (f"hash.{alg}_{8 * o} {hx(rng.rbytes(n))}", f"{alg}.long.oneshot")
+        yield (f"hash.{alg} {mx} - {hx(rng.rbytes(65536))}", f"{alg}.64KiB")
+        yield (f"hash.{alg} {rng.randrange(1, mx + 1)} {hx(rng.rbytes(mx))} {hx(rng.rbytes(65536))}", f"{alg}.64KiB")
         # small refused stream
         for o, k in ((0, 0), (mx + 1, 0), (mx, mx + 1), (0, mx + 1)):
             yield (f"hash.{alg} {o} {hx(rng.rbytes(k))} {hx(rng.rbytes(3))}", f"{alg}.refused")
@@ -83,21 +90,37 @@ def gen_C02(tier, rng):
             if kind in ("k", "G"):
                 return kind + (rng.rbytes(arg).hex() if arg else "")
             return kind
-        alphabet = ([("u", c) for c in _chunks(B)] + [("m", B), ("m", B + 1)]
-                    + [("c", 0), ("x", 0), ("r", 0), ("k", mx), ("F", 0), ("G", 1), ("d", 0)])
+        # the alphabet of the exhaustive part: update and update_mut with EVERY chunk length class, fork / swap, reset,
+        # reset_with_key with the empty / a 1-byte / a maximal key, finalize_reset, finalize_reset_with_key with a 1-byte and a
+        # maximal key, finalize-of-clone (22 symbols)
+        alphabet = ([("u", c) for c in _chunks(B)] + [("m", c) for c in _chunks(B)]
+                    + [("c", 0), ("x", 0), ("r", 0), ("k", 0), ("k", 1), ("k", mx), ("F", 0), ("G", 1), ("G", mx), ("d", 0)])
+        apis = ("dyn", "ctx", "std")
+        n4 = 0
         for d in range(1, depth + 1):
             for seq in itertools.product(alphabet, repeat=d):
                 if seq[0][0] == "x" or (d == depth and seq[-1][0] in ("c",)):
                     continue
                 toks = [tok(s) for s in seq]
                 prog = _finish(toks)
-                yield (f"hctxdyn.{alg} {mx} - {prog}", f"{alg}.exh{d}.dyn")
                 key = rng.rbytes(rng.choice([1, mx]))
                 o = rng.choice([1, mx // 2, mx])
-                yield (f"hctx.{alg} {o} {hx(key)} {prog}", f"{alg}.exh{d}.ctx")
-                if rng.randrange(8) == 0:
-                    o = rng.choice(p["std"])
-                    yield (f"hctxstd.{alg} {o} {hx(key if rng.randrange(2) else b'')} {prog}", f"{alg}.exh{d}.std")
+                so = rng.choice(p["std"])
+                skey = key if rng.randrange(2) else b""
+                # depth <= 3: every sequence through all three APIs (ContextDyn, Context<8*outlen> with the …_at functions,
+                # the const-generic Context<224|256|384|512> with finalize()/finalize_reset()); depth 4 (thorough): the three
+                # APIs take turns (one API per sequence, round robin)
+                if d <= 3:
+                    which = apis
+                else:
+                    which = (apis[n4 % 3],)
+                    n4 += 1
+                if "dyn" in which:
+                    yield (f"hctxdyn.{alg} {mx} - {prog}", f"{alg}.exh{d}.dyn")
+                if "ctx" in which:
+                    yield (f"hctx.{alg} {o} {hx(key)} {prog}", f"{alg}.exh{d}.ctx")
+                if "std" in which:
+                    yield (f"hctxstd.{alg} {so} {hx(skey)} {prog}", f"{alg}.exh{d}.std")
         # re-keying transitions between every pair of key classes (empty / 1 byte / max-1 / max) through reset_with_key (k)
         # and finalize_reset_with_key (G), from a fresh, a partially filled and a just-finalised context
         kcls = [b"", rng.rbytes(1), rng.rbytes(mx - 1), rng.rbytes(mx)]
